@@ -30,11 +30,11 @@ Print Assumptions C12_find_is_first_occurrence.
        no longer than requested, Timeout only from the network and losing nothing,
        buffered ++ undelivered = remaining after every call (raising or not),
        wire ++ send buffer = accepted. ------------------------------------------------------ *)
-Theorem C12_refines_spec : forall mx rs n sc ops,
+Theorem C12_refines_spec : forall mx rs d n sc ops,
   wf_net n = true -> 1 <= rs ->
   let len := length (flat n) in
-  let '(obs, sf) := run len (bs_init mx rs n sc) ops in
-  spec_holds (flat n) mx (intrs n) (sintrs sc) obs (final_view len sf) = true.
+  let '(obs, sf) := run len (bs_init_dl mx rs d n sc) ops in
+  spec_holds (flat n) mx (intrs n) (sintrs sc) d obs (final_view len sf) = true.
 Proof. exact model_refines_spec. Qed.
 Print Assumptions C12_refines_spec.
 
@@ -65,6 +65,22 @@ Example C12_socket_error_ex :
    (OExn (OSErr 32), [6;7;8]); (ONone, []); (ONone, []); (OExn (OSErr 4), []); (OBytes [99], [])]%N /\
   wire sf = [1;2;3;4;5;6;7;8]%N.
 Proof. vm_compute. split; reflexivity. Qed.
+
+(* deadline expiry (the socket has a timeout; a delivery / a partial send arrives only after the deadline):
+   the call's own clock check raises Timeout after the late bytes were buffered / taken off the send buffer;
+   nothing is lost, the repeated call completes; without a timeout the same network yields no Timeout *)
+Example C12_deadline_ex :
+  let net4 := [Chunk [97]; SlowChunk [98;99]; Chunk [10;100]; SlowChunk [101]; Chunk [102]]%N in
+  let ops4 := [RecvUntil [10]%N MUnset false; RecvUntil [10]%N MUnset false; RecvSize 3; RecvSize 3;
+               Send [1;2;3]%N; Flush] in
+  (let '(obs, sf) := run 7 (bs_init_dl 100 2 true net4 [SSlowAccept 0; SAccept 9]) ops4 in
+   map (fun x => (o_out (snd x), o_buf (snd x))) obs =
+   [(OExn Timeout, [97;98;99]); (OBytes [97;98;99], [100]); (OExn Timeout, [100;101]);
+    (OBytes [100;101;102], []); (OExn Timeout, [2;3]); (ONone, [])]%N /\ wire sf = [1;2;3]%N) /\
+  (let '(obs, sf) := run 7 (bs_init_dl 100 2 false net4 [SSlowAccept 0; SAccept 9]) ops4 in
+   map (fun x => o_out (snd x)) obs =
+   [OBytes [97;98;99]; OExn ConnectionClosed; OBytes [100;101;102]; OExn ConnectionClosed; ONat 3; ONone]%N).
+Proof. vm_compute. repeat split; reflexivity. Qed.
 
 (* --- chunking independence: a caller that repeats a call after an interruption
        (Timeout or socket error) gets, on any two
@@ -144,18 +160,18 @@ Example C12_send_ex :
 Proof. vm_compute. split; reflexivity. Qed.
 
 (* --- netstrings: read_ns returns exactly the payloads written with write_ns ------------------ *)
-Theorem C12_write_ns_frames : forall wmax sc ps,
-  sintrs sc = [] -> Forall (fun p => length p <= wmax) ps ->
-  let '(obs, w) := ns_run true 0 (ns_init wmax [] sc) (map WriteNs ps) in
-  wire (ns_bs w) = concat (map frame ps) /\ getsendbuffer (ns_bs w) = [] /\
-  map (fun x => o_out (snd x)) obs = map (fun _ => ONone) ps.
-Proof. exact write_ns_frames. Qed.
-Print Assumptions C12_write_ns_frames.
+Theorem C12_ns_writer_conservation : forall wmax wsc wops,
+  forallb is_wop wops = true ->
+  let '(wobs, w) := ns_run true 0 (ns_init wmax [] wsc) wops in
+  exists acc ps, spec_writes wmax (wire (ns_bs w)) [] [] (sintrs wsc) wobs = Some (acc, ps) /\
+                 wire (ns_bs w) ++ getsendbuffer (ns_bs w) = concat (map frame ps).
+Proof. exact ns_writer_conservation. Qed.
+Print Assumptions C12_ns_writer_conservation.
 
-Theorem C12_netstring_roundtrip : forall rmax ps n,
+Theorem C12_netstring_roundtrip : forall rmax rd ps n,
   wf_net n = true -> flat n = concat (map frame ps) ->
   Forall (fun p => length p <= rmax) ps ->
-  ns_read_retry (ns_init rmax n []) (length ps) = map OBytes ps.
+  ns_read_retry (ns_init_dl rmax rd n []) (length ps) = map OBytes ps.
 Proof. exact netstring_roundtrip. Qed.
 Print Assumptions C12_netstring_roundtrip.
 
@@ -169,12 +185,12 @@ Proof. vm_compute. reflexivity. Qed.
        without per-call maxsize, setmaxsize) over that wire (plus arbitrary junk), cut into deliveries and
        interrupted in any way, the model's observations satisfy exactly the predicate [spec_ns_holds] that
        the check evaluates on the implementation for NSCase ------------------------------------------------ *)
-Theorem C12_ns_refines_spec : forall wmax wsc wops rmax n junk rops,
+Theorem C12_ns_refines_spec : forall wmax wsc wops rmax rd n junk rops,
   forallb is_wop wops = true -> forallb is_rop rops = true ->
   let '(wobs, w) := ns_run true 0 (ns_init wmax [] wsc) wops in
   getsendbuffer (ns_bs w) = [] ->
   wf_net n = true -> flat n = wire (ns_bs w) ++ junk ->
-  let '(robs, _) := ns_run false (length (flat n)) (ns_init rmax n []) rops in
+  let '(robs, _) := ns_run false (length (flat n)) (ns_init_dl rmax rd n []) rops in
   spec_ns_holds wmax (sintrs wsc) wobs (wire (ns_bs w)) rmax (flat n) junk (intrs n) robs = true.
 Proof. exact ns_refines_spec. Qed.
 Print Assumptions C12_ns_refines_spec.
@@ -182,7 +198,7 @@ Print Assumptions C12_ns_refines_spec.
 (* a read_ns that ends in an interruption has consumed nothing, whatever the stream *)
 Theorem C12_read_ns_interrupted : forall x m out x',
   ns_inv x -> read_ns x m = (out, x') -> is_interrupt out = true ->
-  exists e, out = OExn e /\ ns_rem x' = ns_rem x /\ ns_tmo x = e :: ns_tmo x' /\
+  exists e, out = OExn e /\ ns_rem x' = ns_rem x /\ ns_intr_by e x x' /\
             ns_inv x' /\ ns_maxsize x' = ns_maxsize x /\ ns_suffix x x'.
 Proof. exact read_ns_interrupted. Qed.
 Print Assumptions C12_read_ns_interrupted.
